@@ -178,4 +178,21 @@ def writeLines (linelen : Nat) (spaces cont : List Char) : Int → List Item →
       | .crash e => .crash e
       | .ok w' => .ok ⟨w.lines ++ w'.lines, w'.indent⟩
 
+/-! ### write_output_file -/
+
+/-- `write_copyright`: `None`/empty entries become a bare comment line -/
+def copyrightLines (comment : List Char) : List (List Char) → List (List Char)
+  | [] => []
+  | l :: ls => (if l.isEmpty then comment else comment ++ ' ' :: l) :: copyrightLines comment ls
+
+/-- `util.WrapperMixin.write_output_file`: two header comment lines, the copyright
+    block, then `write_lines` with the indentation reset to 0.  Returns the lines of the file. -/
+def writeOutputFile (comment fname version : List Char) (copyright : List (List Char))
+    (linelen : Nat) (spaces cont : List Char) (output : List Item) : Res (List (List Char)) :=
+  match writeLines linelen spaces cont 0 output with
+  | .crash e => .crash e
+  | .ok w => .ok ((comment ++ ' ' :: fname)
+      :: (comment ++ " This file is generated by Shroud ".toList ++ version ++ ". Do not edit.".toList)
+      :: copyrightLines comment copyright ++ w.lines)
+
 end Shroud.Lines
